@@ -274,6 +274,10 @@ def div_examples(cell, D):
     return dv, nd
 
 
+def prop_of(checker):
+    return "C04"
+
+
 def analyse_instance(ctx, mod, k, inst, has_conv, findings):
     """Returns (#obligations, #discharged).  findings: list of (prop, key, what, detail)."""
     T, N, D = inst.T, inst.N, inst.D
@@ -290,7 +294,7 @@ def analyse_instance(ctx, mod, k, inst, has_conv, findings):
         roots[nm] = d.ret
     rv = {"conv": (bits, signed), "convas": (bits, signed)} if has_conv else {}
     ar = {cn: dags[cn].arith for cn in rv}
-    part = cells.analyse(roots, tmin, tmax, ret_views=rv, arith=ar)
+    part = cells.analyse(roots, tmin, tmax, ret_views=rv, arith=ar, wrap_roots=("lossy", "ovf", "trunc"))
     a, b = model_sets(inst)
     cnt = {'C03': [0, 0], 'C04': [0, 0]}
     total = 0
@@ -304,6 +308,12 @@ def analyse_instance(ctx, mod, k, inst, has_conv, findings):
     for cell, res in part:
         total += cell.count()
         fl, fo, ft = (cells.as_bool(res["lossy"]), cells.as_bool(res["ovf"]), cells.as_bool(res["trunc"]))
+        ub = [(nm, res[nm]) for nm in ("lossy", "ovf", "trunc") if isinstance(res[nm], cells.Bad)]
+        if ub:
+            nm, v = ub[0]
+            report(prop_of(nm), "checker-%s-undefined" % nm, cell.example(),
+                   "evaluating the %s checker itself is undefined for x=%d: %s at %s" % (nm, cell.example(), v.kind, where(v)))
+            continue
         for nm, v in (("lossy", fl), ("ovf", fo), ("trunc", ft)):
             if v is None:
                 raise AnalysisBroken("%s: checker %s not decided on cell %r: %r" % (inst.key, nm, cell, res[nm]))
